@@ -24,7 +24,14 @@ from collections import Counter
 
 VERIF_DIR = os.path.dirname(os.path.dirname(os.path.abspath(__file__)))
 REPO = os.path.abspath(os.environ.get('VERIF_REPO', '/repo'))
-SEED = int(os.environ.get('VERIF_SEED', '1') or '1')
+def _parse_seed(text):
+    try:
+        return int(text)
+    except (TypeError, ValueError):
+        return int.from_bytes(hashlib.blake2b(str(text).encode(), digest_size=4).digest(), 'big')
+
+
+SEED = _parse_seed(os.environ.get('VERIF_SEED', '1') or '1')
 OUT_DIR = os.path.abspath(os.environ.get('VERIF_OUT', VERIF_DIR))
 
 
